@@ -16,7 +16,10 @@ Decided are the construction obligations without which a feasible design cannot 
          (shared with C12); search_successive and the row-wise sweep call compute_g_functions before size
   R01.4  excess definition: cost = max(max_eft - max_allowed, min_allowed - min_eft)  (shared with C12)
   R01.5  clamp table of solve_root: signs differ -> brentq(f, lower, upper, xtol=abs_tol, rtol=rel_tol);
-         both negative -> lower; both positive -> upper
+         both negative -> lower; both positive -> upper - decided by running the function once per sign case with the two
+         signs given as constants (c02.solve_root_cases), so the way the case is tested does not matter;
+         GHE.size leaves the object at the solver's value on every returning path (an early return is accepted only
+         at min_height after establishing excess <= 0 there)
 
 Blind to any change of numbers (g-function, loads, tolerances).
 """
